@@ -167,6 +167,7 @@ fn div_rem(mut u: BigUint, mut d: BigUint) -> (BigUint, BigUint) {
     }
 
     if d.data.len() == 1 {
+        verif_probe!(DivSingleDigit);
         if d.data == [1] {
             return (u, BigUint::ZERO);
         }
@@ -196,9 +197,11 @@ fn div_rem(mut u: BigUint, mut d: BigUint) -> (BigUint, BigUint) {
     let shift = d.data.last().unwrap().leading_zeros() as usize;
 
     if shift == 0 {
+        verif_probe!(DivShiftZero);
         // no need to clone d
         div_rem_core(u, &d.data)
     } else {
+        verif_probe!(DivShiftNonZero);
         let (q, r) = div_rem_core(u << shift, &(d << shift).data);
         // renormalize the remainder
         (q, r >> shift)
@@ -214,6 +217,7 @@ pub(super) fn div_rem_ref(u: &BigUint, d: &BigUint) -> (BigUint, BigUint) {
     }
 
     if d.data.len() == 1 {
+        verif_probe!(DivSingleDigit);
         if d.data == [1] {
             return (u.clone(), BigUint::ZERO);
         }
@@ -238,9 +242,11 @@ pub(super) fn div_rem_ref(u: &BigUint, d: &BigUint) -> (BigUint, BigUint) {
     let shift = d.data.last().unwrap().leading_zeros() as usize;
 
     if shift == 0 {
+        verif_probe!(DivShiftZero);
         // no need to clone d
         div_rem_core(u.clone(), &d.data)
     } else {
+        verif_probe!(DivShiftNonZero);
         let (q, r) = div_rem_core(u << shift, &(d << shift).data);
         // renormalize the remainder
         (q, r >> shift)
@@ -284,6 +290,7 @@ fn div_rem_core(mut a: BigUint, b: &[BigDigit]) -> (BigUint, BigUint) {
 
     for j in (0..q_len).rev() {
         debug_assert!(a.data.len() == b.len() + j);
+        verif_probe!(DivCoreStep);
 
         let a1 = *a.data.last().unwrap();
         let a2 = a.data[a.data.len() - 2];
@@ -291,9 +298,11 @@ fn div_rem_core(mut a: BigUint, b: &[BigDigit]) -> (BigUint, BigUint) {
         // The first q0 estimate is [a1,a0] / b0. It will never be too small, it may be too large
         // by at most 2.
         let (mut q0, mut r) = if a0 < b0 {
+            verif_probe!(DivA0LtB0);
             let (q0, r) = div_wide(a0, a1, b0);
             (q0, r as DoubleBigDigit)
         } else {
+            verif_probe!(DivA0EqB0);
             debug_assert!(a0 == b0);
             // Avoid overflowing q0, we know the quotient fits in BigDigit.
             // [a1,a0] = b0 * (1<<BITS - 1) + (a0 + a1)
@@ -312,6 +321,7 @@ fn div_rem_core(mut a: BigUint, b: &[BigDigit]) -> (BigUint, BigUint) {
             && big_digit::to_doublebigdigit(r as BigDigit, a2)
                 < q0 as DoubleBigDigit * b1 as DoubleBigDigit
         {
+            verif_probe!(DivRefine);
             q0 -= 1;
             r += b0 as DoubleBigDigit;
         }
@@ -322,6 +332,7 @@ fn div_rem_core(mut a: BigUint, b: &[BigDigit]) -> (BigUint, BigUint) {
         let mut borrow = sub_mul_digit_same_len(&mut a.data[j..], b, q0);
         if borrow > a0 {
             // q0 is too large. We need to add back one multiple of b.
+            verif_probe!(DivAddBack);
             q0 -= 1;
             borrow -= __add2(&mut a.data[j..], b);
         }
